@@ -15,7 +15,7 @@ VARIABLES u, t, doc
 vars == <<u, t, doc>>
 
 DocsOf(i) == { [rule |-> r, utils |-> <<>>] : r \in RulesOf(Us[i], Us[i].full) }
-             \cup (IF Us[i].full THEN UtilDocs(Us[i]) ELSE {})
+             \cup (IF Us[i].full THEN UtilDocs(Us[i]) \cup ConsDocs(Us[i]) ELSE {})
 
 Init == /\ u \in 1..Len(Us)
         /\ t \in 1..Len(Us[u].trees)
@@ -30,12 +30,14 @@ PV == Us[u].trees[t].pv
 Judged == Us[u].full \/ CheckCorpus
 
 C05_EvalIsSem ==
-    (Judged /\ VarDisjoint(UU, doc.rule) /\ FieldsUnique(TT, FieldsUsed(UU, doc.rule))) =>
+    (Judged /\ ~HasCons(UU, doc.rule) /\ VarDisjoint(UU, doc.rule) /\ FieldsUnique(TT, FieldsUsed(UU, doc.rule))) =>
         \A n \in 1..Len(TT) : Eval("impl", UU, TT, doc.rule, n, EmptyEnv).ok = Sem(UU, TT, PV, doc.rule, n)
 
 C04_NoTrace ==
     (Judged /\ ~HasNthOfWithVars(UU, doc.rule)) =>
-        \A n \in 1..Len(TT) : Eval("impl", UU, TT, doc.rule, n, EmptyEnv) = Eval("clean", UU, TT, doc.rule, n, EmptyEnv)
+        \A n \in 1..Len(TT) : LET i == Eval("impl", UU, TT, doc.rule, n, EmptyEnv)  c == Eval("clean", UU, TT, doc.rule, n, EmptyEnv) IN
+                               \* what a caller can observe: the verdict, and the environment of a success
+                               i.ok = c.ok /\ (i.ok => i.env = c.env)
 
 C01_KindSound ==
     Judged =>
